@@ -31,6 +31,9 @@ pub enum B {
     StopSub(u8),
     /// restart subscriber s (it keeps its identity, so its subscription stays)
     RestartSub(u8),
+    /// from now on this client holds subscriber s through a Caller (kind 0) or a Sender (kind 1)
+    /// only - as strong as the address it gives up for it
+    HoldThrough(u8, u8),
 }
 
 struct S {
@@ -40,6 +43,7 @@ struct S {
 
 async fn run_b(c: u8, mut subs: Vec<Option<Addr<P>>>, ops: Vec<B>) {
     use futures::FutureExt as _;
+    let mut other_kinds: Vec<Box<dyn std::any::Any>> = vec![];
     for (i, op) in ops.iter().enumerate() {
         let i = i as u16;
         world::log(Ev::Begin { c, i });
@@ -101,6 +105,17 @@ async fn run_b(c: u8, mut subs: Vec<Option<Addr<P>>>, ops: Vec<B>) {
                     subs[s as usize] = None;
                     Res::Ok
                 }
+                B::HoldThrough(s, kind) => match subs[s as usize].take() {
+                    Some(a) => {
+                        if kind == 0 {
+                            other_kinds.push(Box::new(a.caller::<crate::world::Ask>()));
+                        } else {
+                            other_kinds.push(Box::new(a.sender::<crate::world::Note>()));
+                        }
+                        Res::Ok
+                    }
+                    None => Res::None,
+                },
                 B::StopSub(s) => match subs[s as usize].as_mut() {
                     Some(a) => ru(a.stop()),
                     None => Res::None,
@@ -123,6 +138,7 @@ async fn run_b(c: u8, mut subs: Vec<Option<Addr<P>>>, ops: Vec<B>) {
     world::log(Ev::Begin { c, i });
     world::sleep(5).await;
     drop(subs);
+    drop(other_kinds);
     world::log(Ev::End { c, i, r: Res::Ok });
 }
 
@@ -143,7 +159,7 @@ impl Scene for S {
             let mut mine: Vec<Option<Addr<P>>> = vec![None; self.nsubs as usize];
             for op in prog {
                 let s = match op {
-                    B::Sub(s, _) | B::SubCtx(s, _) | B::Unsub(s, _) | B::PubCtx(s, _, _) | B::DropSub(s) | B::StopSub(s) | B::RestartSub(s) => Some(*s),
+                    B::Sub(s, _) | B::SubCtx(s, _) | B::Unsub(s, _) | B::PubCtx(s, _, _) | B::DropSub(s) | B::StopSub(s) | B::RestartSub(s) | B::HoldThrough(s, _) => Some(*s),
                     _ => None,
                 };
                 if let Some(s) = s {
@@ -159,7 +175,7 @@ impl Scene for S {
             .iter_mut()
             .enumerate()
             .map(|(s, a)| {
-                let mentioned = self.programs.iter().flatten().any(|op| matches!(op, B::Sub(x, _) | B::SubCtx(x, _) | B::Unsub(x, _) | B::PubCtx(x, _, _) | B::DropSub(x) | B::StopSub(x) | B::RestartSub(x) if *x as usize == s));
+                let mentioned = self.programs.iter().flatten().any(|op| matches!(op, B::Sub(x, _) | B::SubCtx(x, _) | B::Unsub(x, _) | B::PubCtx(x, _, _) | B::DropSub(x) | B::StopSub(x) | B::RestartSub(x) | B::HoldThrough(x, _) if *x as usize == s));
                 if mentioned { None } else { a.take() }
             })
             .collect();
@@ -349,6 +365,15 @@ fn base_cases(tier: Tier) -> Vec<Case> {
         push(&mut v, 2, vec![vec![sub, B::Sub(1, 1), B::DropSub(0), B::TryPub(1, 41), B::TryPub(1, 42)]], None);
     }
     push(&mut v, 1, vec![vec![B::TryPub(1, 41), B::Pub(1, 42), B::TryPub(1, 43)]], None);
+    // a subscriber that is kept alive by a Caller or a Sender only is as alive as any: the broker
+    // reaches it (its weak sender upgrades), before and after the change of hands
+    for sub in [B::Sub(0, 1), B::SubCtx(0, 1)] {
+        for kind in [0u8, 1] {
+            push(&mut v, 1, vec![vec![sub, B::HoldThrough(0, kind), B::Pub(1, 41), B::PubAddr(1, 42)]], None);
+            push(&mut v, 1, vec![vec![sub, B::Pub(1, 41), B::HoldThrough(0, kind), B::Pub(1, 42)]], None);
+            push(&mut v, 2, vec![vec![sub, B::Sub(1, 1), B::HoldThrough(0, kind), B::Pub(1, 41), B::DropSub(1), B::Pub(1, 42)]], None);
+        }
+    }
     // two subscribers, one publisher client: same order at both
     for p in pubs(41) {
         push(&mut v, 2, vec![vec![B::Sub(0, 1), B::Sub(1, 1), p, B::Pub(1, 42)]], None);
